@@ -151,6 +151,8 @@ impl TokenSink for XPolicySink {
 pub enum XPipeline {
     Tok { policy: u64 },
     Tree,
+    /// xml5ever::driver with RcDom as sink, then drop (totality only)
+    RcDom,
 }
 
 #[derive(Clone, Debug, PartialEq, Eq)]
@@ -166,12 +168,15 @@ impl XmlCase {
         let p = match &self.pipeline {
             XPipeline::Tok { policy } => json!({"kind": "tok", "policy": policy.to_string()}),
             XPipeline::Tree => json!({"kind": "tree"}),
+            XPipeline::RcDom => json!({"kind": "rcdom"}),
         };
         json!({"world": "xml-stream", "input": self.input, "opts": self.opts.to_json(), "pipeline": p, "schedule": self.schedule.to_json()})
     }
     pub fn from_json(v: &Value) -> XmlCase {
         let pipeline = if v["pipeline"]["kind"].as_str() == Some("tok") {
             XPipeline::Tok { policy: v["pipeline"]["policy"].as_str().and_then(|s| s.parse().ok()).unwrap_or(0) }
+        } else if v["pipeline"]["kind"].as_str() == Some("rcdom") {
+            XPipeline::RcDom
         } else {
             XPipeline::Tree
         };
@@ -196,6 +201,7 @@ pub struct XRunObs {
     pub stats: RunStats,
     pub sink: Option<ModelSink>,
     pub digest: u64,
+    pub is_driver: bool,
 }
 
 struct XTokDriven {
@@ -258,6 +264,25 @@ pub fn run_xml(case: &XmlCase, record_calls: bool) -> XRunObs {
             let s = d.tok.sink;
             finish(s.recs.into_inner(), pauses, feed_results, qne, s.eof_count.get(), s.after_eof.get(), s.end_calls.get(), &probe, stats, None)
         },
+        XPipeline::RcDom => {
+            use tendril::stream::TendrilSink;
+            let opts = xml5ever::driver::XmlParseOpts { tokenizer: case.opts.tok(), tree_builder: Default::default() };
+            let mut parser = xml5ever::driver::parse_document(markup5ever_rcdom::RcDom::default(), opts);
+            let (chunks, _keep) = crate::schedule::make_chunks(&case.input, &case.schedule);
+            let mut stats = RunStats::default();
+            for ch in chunks {
+                stats.chunks += 1;
+                stats.events += 1;
+                parser.process(ch);
+            }
+            let dom = parser.finish();
+            let n = dom.document.children.borrow().len() as u64;
+            drop(dom);
+            let mut o = finish(vec![], vec![], vec![], None, 1, 0, 1, &probe, stats, None);
+            o.digest = n;
+            o.is_driver = true;
+            o
+        },
         XPipeline::Tree => {
             let policy = SinkPolicy { attach_ok: false, allow_shadow: true, record_calls, emulate_never_mirror: false };
             let sink = ModelSink::new(policy, None, true);
@@ -311,6 +336,7 @@ fn finish(
         stats,
         sink,
         digest: dg,
+        is_driver: false,
     }
 }
 
